@@ -77,7 +77,7 @@ type Ctx struct {
 // A worker goroutine stuck inside the library (an endless loop a change introduced) can be neither
 // recovered nor killed, and would make the check hang. Every Range worker therefore notes which index
 // it is working on and when (in ticks of a coarse clock); a monitor reports the case as a violation
-// ("the call does not return") once it has been running for VERIF_HANG_S seconds (default 120), writes
+// ("the call does not return") once it has been running for VERIF_HANG_S seconds (default 120, thorough 600), writes
 // the evidence and ends the process with status 1. Hand-rolled worker loops use Track/Untrack.
 
 type wslot struct {
@@ -114,6 +114,9 @@ func NewSlot() int { return int(slotSeq.Add(1)-1) % len(wslots) }
 
 func (c *Ctx) watchdog() {
 	limit := int64(120)
+	if c.Tier == "thorough" {
+		limit = 600 // the longest legitimate single case (a C20 value with the full action set) takes seconds; leave two orders of magnitude
+	}
 	if v, err := strconv.Atoi(os.Getenv("VERIF_HANG_S")); err == nil && v > 0 {
 		limit = int64(v)
 	}
